@@ -328,8 +328,58 @@ def comps_of(t):
     return [x for x in subterms(t) if x and x[0] == "comp"]
 
 
+def source_kinds(M, t):
+    """names under which the iterated container is known: the accessor's name, or the accessor that created the container"""
+    out = set()
+    for x in subterms(t):
+        if not x:
+            continue
+        if x[0] == "attr":
+            out.add(x[2].lstrip("_"))
+        elif x[0] in ("mcall",) and isinstance(x[1], str):
+            out.add(x[1])
+        elif x[0] == "call" and isinstance(x[1], str):
+            out.add(x[1].split(".")[-1].split(":")[-1])
+        elif x[0] == "inst" and len(x) > 2 and isinstance(x[2], str):
+            m = x[2].split("#")[0].split(":")
+            if len(m) >= 2 and m[1].isdigit():
+                for f in M.funcs.values():
+                    if f.file.split("/")[-1] == m[0] and f.node.lineno <= int(m[1]) <= (f.node.end_lineno or f.node.lineno):
+                        out.add(f.node.name.lstrip("_"))
+    return out
+
+
+def selects(cn, cnd):
+    """is this condition the link test: the candidate's metadata id equals this section's id / this source is among the
+    candidate's sources"""
+    for x in subterms(cnd):
+        if not x or x[0] not in ("cmp", "eq", "in") or len(x) < 3:
+            continue
+        sides = (x[2], x[3]) if x[0] == "cmp" else (x[1], x[2])
+        op = x[1] if x[0] == "cmp" else ("in" if x[0] == "in" else "==")
+
+        def mentions(t, attr):
+            return any(y and ((y[0] == "attr" and y[2] == attr) or (y[0] == "rd" and y[3] == ("const", attr))) for y in subterms(t))
+
+        def is_self_id(t):
+            return any(y and ((y[0] == "attr" and y[1] == ("self",) and y[2] == "id") or
+                              (y[0] == "rd" and y[3] == ("const", "entity_id") and ("self",) in set(subterms(y[2])))) for y in subterms(t)) \
+                and not mentions(t, "metadata")
+        if cn == "Section" and op in ("==", "eq"):
+            for a, b in (sides, sides[::-1]):
+                if mentions(a, "metadata") and (mentions(a, "id") or mentions(a, "entity_id")) and is_self_id(b):
+                    return True
+        if cn == "Source":
+            a, b = sides
+            if op == "in" and (a == ("self",) or is_self_id(a)) and mentions(b, "sources"):
+                return True
+    return False
+
+
 def referring(M, rep, ctx, R4, R5):
     fam = {}
+    rctx = Ctx(M, coarse=False)
+    rctx.cfg.compose = False
     for cn in ("Section", "Source"):
         c = M.classes.get(cn)
         if c is None:
@@ -341,27 +391,38 @@ def referring(M, rep, ctx, R4, R5):
             kind = name[len("referring_"):]
             key = "%s.%s" % (cn, name)
             fam.setdefault(cn, {})[kind] = g
-            # syntactic structure through the AST of the (small) getter: which container attribute is iterated and
-            # what selects -- resolved names, not text positions
-            iters = set()
-            conds = []
-            for n in ast.walk(g.node):
-                if isinstance(n, ast.comprehension):
-                    iters.add(ast.unparse(n.iter))
-                    conds += [ast.unparse(c_) for c_ in n.ifs]
-                elif isinstance(n, ast.For):
-                    iters.add(ast.unparse(n.iter))
-            it_kinds = {i.split(".")[-1].split("(")[0] for i in iters}
-            okc = kind in it_kinds or ("find_" + kind) in it_kinds
-            if cn == "Section":
-                sel = any("metadata" in c_ and ".id" in c_ and "self.id" in c_.replace(" ", "") for c_ in conds)
-                why = "does not select by `metadata.id == self.id`"
-            else:
-                sel = any(("self in" in c_ and ".sources" in c_) or ("self.id" in c_ and "sources" in c_) for c_ in conds)
-                why = "does not select by membership of this source in the candidate's sources"
-            rep.check(R4, key, okc and sel, "%s %s" % (key, ("does not iterate the %s containers (iterates %s)" % (kind, sorted(iters)))
+            # on the abstract paths of the getter (helpers inlined): what is collected is an element of which container,
+            # selected by which comparison
+            try:
+                paths = explore(rctx.cfg, g, cn, None, 6000)
+            except Budget:
+                raise AnalysisError("C13.R4: %s has too many abstract paths" % key)
+            kinds = set()
+            sel = False
+            for p in paths:
+                comps = []
+                if p.terminal[0] == "return":
+                    comps += comps_of(p.terminal[1].t)
+                conds = [a for a, v in p.decisions if v]
+                for e in p.events:
+                    if e.kind == "local" and e.op in ("list.extend", "list.append", "list.__iadd__", "list.insert") and e.args:
+                        for a in e.args:
+                            comps += comps_of(a.t)
+                            if a.t and a.t[0] == "elem":
+                                kinds |= source_kinds(M, a.t[1])
+                for cp in comps:
+                    for src in cp[3]:
+                        kinds |= source_kinds(M, src)
+                    conds += list(cp[4])
+                for cnd in conds:
+                    if selects(cn, cnd):
+                        sel = True
+            okc = kind in kinds or ("find_" + kind) in kinds
+            why = "does not select by `metadata.id == self.id`" if cn == "Section" else \
+                "does not select by membership of this source in the candidate's sources"
+            rep.check(R4, key, okc and sel, "%s %s" % (key, ("does not iterate the %s containers (iterates %s)" % (kind, sorted(kinds)))
                                                       if not okc else why), site=g.file + ":%d" % g.node.lineno,
-                      what="iterates %s" % sorted(iters))
+                      what="iterates %s" % sorted(kinds))
         ro = c.getters.get("referring_objects")
         if ro is None:
             rep.bad(R4, cn + ".referring_objects", "required mechanism not found")
